@@ -96,7 +96,7 @@ func (sc *Scenario) DefinitionCalls() []string {
 }
 
 // Words share prefixes on purpose (abbreviation ambiguity, completion lists with several entries).
-var words = []string{"v", "ver", "verbose", "version", "val", "value", "values", "f", "fo", "foo", "force", "file", "files", "b", "bar", "baz", "build", "x", "xy", "q", "quiet", "quick", "d", "debug", "dry", "t", "tag", "tags", "n", "name"}
+var words = []string{"v", "ver", "verbose", "version", "val", "value", "values", "f", "fo", "foo", "force", "file", "files", "b", "bar", "baz", "build", "x", "xy", "q", "quiet", "quick", "d", "debug", "dry", "t", "tag", "tags", "n", "name", "V", "Ver", "File", "Q", "B", "Tag", "N", "Name"}
 var cmdWords = []string{"build", "bench", "bump", "clean", "check", "clone", "test", "tidy", "run"}
 
 func genOpts(r *simrt.RNG, taken map[string]bool, n int, reqBias int) []OptDef {
@@ -125,6 +125,9 @@ func genOpts(r *simrt.RNG, taken map[string]bool, n int, reqBias int) []OptDef {
 				o.Valid = []string{"red", "green", "blue", "grey"}[:2+r.Intn(3)]
 			case 1:
 				o.Suggested = []string{"alpha", "beta", "gamma", "alps"}[:2+r.Intn(3)]
+				if r.Intn(3) == 0 { // a repeated entry
+					o.Suggested = append(o.Suggested, o.Suggested[0])
+				}
 			}
 		}
 		if o.Kind >= 8 {
@@ -164,6 +167,9 @@ func genCmd(r *simrt.RNG, name string, taken map[string]bool, depth int, reqBias
 	}
 	if r.Intn(4) == 0 {
 		c.ArgComp = []string{"apple", "apricot", "banana", "avocado"}[:2+r.Intn(3)]
+		if r.Intn(2) == 0 { // completion candidates that also come from another source, and repeats
+			c.ArgComp = append(c.ArgComp, cmdWords[r.Intn(len(cmdWords))], "apple", cmdWords[r.Intn(len(cmdWords))])
+		}
 	}
 	if r.Intn(6) == 0 {
 		c.Synopsis = []string{"<file>", "<dir>"}[:1+r.Intn(2)]
@@ -235,8 +241,11 @@ func Generate(seed uint64) *Scenario {
 	taken := map[string]bool{"help": true}
 	sc.Root = CmdDef{Name: "prog", Fn: r.Intn(2) == 0}
 	sc.Root.Opts = genOpts(r, taken, 2+r.Intn(7), reqBias)
-	if r.Intn(5) == 0 {
+	if r.Intn(4) == 0 {
 		sc.Root.ArgComp = []string{"apple", "apricot", "banana"}
+		if r.Intn(2) == 0 {
+			sc.Root.ArgComp = append(sc.Root.ArgComp, cmdWords[r.Intn(len(cmdWords))], "banana", cmdWords[r.Intn(len(cmdWords))], "help")
+		}
 	}
 	used := map[string]bool{}
 	for i, nc := 0, r.Intn(5); i < nc; i++ {
